@@ -192,6 +192,29 @@ def check_query(conv, model, u, fails, where):
             gs = gss = f"raised {type(e).__name__}"
         if gs != expc or gss != expc:
             fails.append(("C01/strict-compress-differs", f"{where}: compress({u!r}, strict=True) = {gs!r}, compress_strict = {gss!r}, expected {expc!r}"))
+    # the reporting flags change how a miss is reported, never whether or what is matched
+    try:
+        gp = conv.compress(u, passthrough=True)
+    except Exception as e:  # noqa
+        gp = f"raised {type(e).__name__}"
+    if gp != (expc if exp is not None else u):
+        fails.append(("C01/passthrough-compress-differs", f"{where}: compress({u!r}, passthrough=True) = {gp!r}, expected {(expc if exp is not None else u)!r}"))
+    if exp is None:
+        for kw in ({"strict": True}, {"strict": True, "passthrough": True}):
+            try:
+                r = conv.compress(u, **kw)
+                fails.append(("C01/strict-compress-returns-on-a-miss", f"{where}: compress({u!r}, {kw}) returned {r!r} although no registered URI prefix matches"))
+            except ValueError:
+                pass
+            except Exception as e:  # noqa
+                fails.append(("C01/strict-compress-raises-foreign-exception", f"{where}: compress({u!r}, {kw}) raised {type(e).__name__}"))
+    else:
+        try:
+            gsp = conv.compress(u, strict=True, passthrough=True)
+        except Exception as e:  # noqa
+            gsp = f"raised {type(e).__name__}"
+        if gsp != expc:
+            fails.append(("C01/strict-compress-differs", f"{where}: compress({u!r}, strict=True, passthrough=True) = {gsp!r}, expected {expc!r}"))
     if conv.is_uri(u) != (exp is not None):
         fails.append(("C01/is_uri-differs", f"{where}: is_uri({u!r}) = {conv.is_uri(u)!r}, expected {exp is not None}"))
 
